@@ -210,6 +210,20 @@ int ApiRun::pick_cont(uint32_t x, bool need_free_cif) {
     }
     return v.empty() ? -1 : v[x % v.size()];
 }
+// A container handle of a CIF on which an iterator is open, other than the container that holds the iterated loop: reading there is
+// defined behaviour (cif_loop_get_packets() puts only the iterated loop off limits) and must neither disturb the iteration nor see
+// anything but the CIF's current content.  -1 if there is none.
+int ApiRun::pick_cont_beside_iter(uint32_t x) {
+    std::vector<int> v;
+    for (size_t i = 0; i < conts.size(); ++i) {
+        if (!conts[i].h) continue;
+        int it = cifs[(size_t) conts[i].cif].iter; if (it < 0) continue;
+        int ls = iters[(size_t) it].loop_slot; if (ls < 0 || loops[(size_t) ls].cont_uid == conts[i].uid) continue;
+        if (!mcont((int) i)) continue;
+        v.push_back((int) i);
+    }
+    return v.empty() ? -1 : v[x % v.size()];
+}
 int ApiRun::pick_loop(uint32_t x, bool need_free_cif, bool allow_stale) {
     if (forced_loop >= 0) { HLoop &f = loops[(size_t) forced_loop]; return (f.h && !f.locked && (allow_stale || !loop_stale(forced_loop)) && (!need_free_cif || cifs[(size_t) f.cif].iter < 0)) ? forced_loop : -1; }
     std::vector<int> v;
